@@ -1,5 +1,5 @@
 """Configuration of ./check C16: harness streams (name, n_quick, n_thorough), rule text, theorem names; MANIFEST texts."""
-PROP = {'streams': [('c16', 600, 24000)],
+PROP = {'streams': [('c16', 600, 24000), ('c14typed', 40, 2000)],
  'definitional': False,
  'rule': 'one case = one schema world (2/3 chain worlds of gen_schema_chain.rs: entity-typed attributes / tags / context fields forming cycles over '
          '2-4 types, self loops, optional links, records containing entities, sets of entities; 1/3 generic worlds of gen_schema.rs) with a dense '
